@@ -359,7 +359,8 @@ def s_diff(ch, T):
     else:
         parts = ([] if n is None else ["n=%d" % n]) + ([] if axis is None else ["axis=%d" % axis])
     expr = "np.diff(x%s)" % "".join(", " + p for p in parts)
-    return Case("diff", expr, dict(x=x), dict(rank=nd, axis_sign=A.sign_of(axis), style=style), family="S")
+    dim = shape[-1 if axis is None else axis]
+    return Case("diff", expr, dict(x=x), dict(rank=nd, axis_sign=A.sign_of(axis), style=style, n_gt_dim_minus_1=((n or 1) > dim - 1 and (n or 1) > 1)), family="S")
 
 
 @spec("gradient", "S")
